@@ -99,13 +99,17 @@ def drive(sc):
             else:
                 e["ret"] = call(lambda: mgr.is_supported(ptype, method), builtin_ids)
         trace.append(e)
+    def listing(mgr, kind):
+        try:
+            return [name for name, _ in mgr.plugins(kind)]
+        except Exception as exc:  # noqa: BLE001 - an exception while listing is an observation, not a harness failure
+            return [f"<{type(exc).__name__} while listing>"]
     for m in (1, 2):
-        trace.append({"ev": "Call", **blank, "op": "list", "m": m, "ret": "ok",
-                      "names": [name for name, _ in mgrs[m - 1].plugins(ptype)]})
+        trace.append({"ev": "Call", **blank, "op": "list", "m": m, "ret": "ok", "names": listing(mgrs[m - 1], ptype)})
     # the other type still holds exactly what each manager registered there
     leaked = [n for m, own in ((0, "rvother-first"), (1, "rvother-second"))
-              for n, _ in mgrs[m].plugins(other) if n.startswith("rvother") and n != own]
-    if leaked or any(n in ("x", "y", "z") for m in (0, 1) for n, _ in mgrs[m].plugins(other)):
+              for n in listing(mgrs[m], other) if n.startswith("rvother") and n != own]
+    if leaked or any(n in ("x", "y", "z") or n.startswith("<") for m in (0, 1) for n in listing(mgrs[m], other)):
         trace.append({"ev": "Call", **blank, "op": "list", "m": 1, "ret": "ok", "names": ["<registration leaked to another type or manager>"]})
     calls = sc["calls"]
     nontrivial = any(a["op"] == "add" and any(b["op"] == "get" and b["plug"] == "" and b["m"] == a["m"] and b["meth"] in SETS[a["p"]]
